@@ -1,7 +1,7 @@
 (* C02 — H1 cases (one real Consensus, fault-injecting datastore): replay of the observed trace on the model
    (code 1 = the model cannot explain / does not predict the observation) and the boolean form of the property
    evaluated on the observation alone (codes 10..16). Evaluated with vm_compute. *)
-From V Require Import Base.Common Model.C02_Batch Model.C02_BatchTime Model.C02_Set.
+From V Require Import Base.Common Model.C02_Batch Model.C02_BatchTime Model.C02_BatchQueue Model.C02_Set.
 Open Scope N_scope.
 
 Definition item := (N * wop)%type.
@@ -217,8 +217,17 @@ Definition tag_for (h : h1) (bad : list key) : N := if subsetb bad (republish_ke
 (* an operation whose effect never showed (the harness writes 2^50) is not judged here: either it was never committed
    (TNoAge / TStuck: codes 13, 14) or it was and the final pinset lacks its effect (code 15) *)
 Definition never_seen : N := 1125899906842624.
+(* The limit is the one of theorem batch_accept_to_commit_bound, `accept_to_commit_limit` = qcap * (lt + lc) + max_age + lf + lw,
+   counted from the instant LogPin/LogUnpin returned. The harness gives one slack; the monitor splits it: a quarter each for
+   the runtime firing the timer (lf) and the worker reading it (lw), the other half for the queue, i.e. lt = lc =
+   slack / (4 * qcap) per position. *)
+Definition monitor_limit (h : h1) : N :=
+  let q := N.max 1 (h_qcap h) in
+  let l4 := h_slack h / 4 in
+  let lp := h_slack h / (4 * q) in
+  accept_to_commit_limit (mk_tcfg (mk_bcfg q (h_size h) true true) (h_age h) false) l4 l4 lp lp.
 Definition late_ops (h : h1) : list (N * N) :=
-  if 0 <? h_slack h then filter (fun av => (snd av <? never_seen) && (fst av + h_age h + h_slack h <? snd av)) (h_lat h) else [].
+  if 0 <? h_slack h then filter (fun av => (snd av <? never_seen) && (fst av + monitor_limit h <? snd av)) (h_lat h) else [].
 
 (* an operation that can never take effect was accepted (LogPin returned nil): "a pin accepted on a peer takes effect on
    that peer" cannot hold for it *)
